@@ -83,6 +83,24 @@ class RunStateBinding(Binding):
         self._engine_like: dict[int, bool] = {}
         self._is_engine_cache: dict[int, bool] = {}
         self._memo: dict = {}
+        # snapshot locals: `x = <engine flag / System State>` keeps the value it had at the assignment (it may be used
+        # after a yield, when other commands have changed the flag) - one domain variable per such local
+        self.snap: dict[tuple[int, str], tuple[str, object]] = {}
+        fns = [m for c in impl.classes.values() for m in c.methods.values()] + list(impl.functions.values()) \
+            + list(self.engine.methods.values())
+        for fn in fns:
+            for lname, dexpr in local_single_defs(fn).items():
+                neg = False
+                e2 = dexpr
+                if isinstance(e2, ast.UnaryOp) and isinstance(e2.op, ast.Not):
+                    neg, e2 = True, e2.operand
+                if isinstance(e2, ast.Name):
+                    continue
+                src = self.read(e2, fn)
+                if src in ("started", "paused", "holding", "stopping", "sys"):
+                    var = f"L:{fn.short}:{lname}"
+                    self.vars[var] = (None,) + ((False, True) if neg else tuple(self.vars[src]))
+                    self.snap[(id(fn.node), lname)] = (var, (lambda d, src=src: not d[src]) if neg else (lambda d, src=src: d[src]))
 
     # ---- extraction of the clock gate table from tags_impl
     def _clock_signal_table(self):
@@ -149,6 +167,9 @@ class RunStateBinding(Binding):
         if isinstance(expr, ast.Name):
             if expr.id == "command_name" and f.name == "_validate_control_command":
                 return "cmd"
+            sn = getattr(self, "snap", {}).get((id(f.node), expr.id))
+            if sn is not None:
+                return sn[0]
             d = local_single_defs(f).get(expr.id)
             if d is not None and not isinstance(d, ast.Name):
                 return self.read(d, f)
@@ -181,6 +202,8 @@ class RunStateBinding(Binding):
             return out
         if isinstance(a, ast.Assign):
             for t in a.targets:
+                if isinstance(t, ast.Name) and (id(f.node), t.id) in self.snap:
+                    out.append(self.snap[(id(f.node), t.id)])
                 if isinstance(t, ast.Attribute) and self.is_engine(t.value, f):
                     if t.attr in FLAGS:
                         out.append((FLAGS[t.attr], a.value))
@@ -227,7 +250,7 @@ class RunStateBinding(Binding):
     def _inline(self, call, f):
         out = []
         for callee in self.res.resolve_call(call, f, cha=False):
-            if callee.cls is self.engine or (callee.cls is not None and callee.cls.module.name == IMPL):
+            if callee.cls is self.engine or callee.module.name == IMPL:
                 if self._touches(callee):
                     out.append(callee)
         return out
@@ -244,7 +267,7 @@ class RunStateBinding(Binding):
             for c in walk_no_nested(fn.node):
                 if isinstance(c, ast.Call):
                     for callee in self.res.resolve_call(c, fn, cha=False):
-                        if callee.cls is self.engine or (callee.cls is not None and callee.cls.module.name == IMPL):
+                        if callee.cls is self.engine or callee.module.name == IMPL:
                             if self._touches(callee, depth + 1):
                                 hit = True
         self._engine_like[k] = hit
@@ -375,6 +398,8 @@ class Explorer:
              "bad_restore": None, "cmd": None, "pend": None, "err": False, "orph": ()}
         for n in CONTROL:
             d[f"if_{n}"] = None
+        for var, _ in self.b.snap.values():
+            d[var] = None
         # flag initialisers of Engine.__init__ must be False / None
         ini = self.engine.methods["__init__"]
         for n in walk_no_nested(ini.node):
@@ -526,6 +551,24 @@ class Explorer:
         cur = s
         while cur is not None and len(out) < maxlen:
             pred, lab = self.reach[cur]
+            if lab == "tick" and pred is not None:
+                # what the tick did (commands stepped inside a tick - scheduled by the method or in flight - are not
+                # separate transitions of the model): name the commands that started / finished and the flags that changed
+                a, z = sd(pred), sd(cur)
+                notes = []
+                for n in CONTROL:
+                    k = f"if_{n}"
+                    if a[k] is None and z[k] is not None:
+                        notes.append(f"{n} begins, waits")
+                    elif a[k] is not None and z[k] is None:
+                        notes.append(f"{n} ends")
+                for k in ("started", "paused", "holding", "sys"):
+                    if a[k] != z[k]:
+                        notes.append(f"{k}={z[k]}")
+                if a["pend"] is None and not notes and a["msched"] is False:
+                    pass
+                if notes:
+                    lab = "tick[" + ", ".join(notes) + "]"
             out.append(lab)
             cur = pred
         return out[::-1]
